@@ -83,7 +83,7 @@ for (const c of script) {
             inst.get(op.inst).destroy()
         }
         if (p) {
-            if (c.mode === 'await') { try { await p } catch (e) { /* recorded by the slot or irrelevant */ } }
+            if (c.mode === 'await' || (c.mode === 'mixed' && op.aw)) { try { await p } catch (e) { /* recorded by the slot or irrelevant */ } }
             else pending.push(p.catch(() => {}))
         }
     }
